@@ -65,7 +65,7 @@ Section Just.
     destruct e; try discriminate. destruct st; try discriminate. destruct async; try discriminate.
     apply andb_true_iff in H2. destruct H2 as [H2 Hrest]. apply andb_true_iff in H2. destruct H2 as [Hr Hs].
     apply N.eqb_eq in Hr. apply N.eqb_eq in Hs. subst. cbv zeta in Hrest. apply andb_true_iff in Hrest.
-    destruct Hrest as [H3 H0]. apply N.eqb_eq in H0.
+    destruct Hrest as [H3 H0]. apply N.eqb_eq in H0. apply andb_true_iff in H3. destruct H3 as [H3 _].
     apply (g_cts_sub _ _ G) in H1. apply (a_ctsl _ _ A) in H1. destruct H1 as [-> [Lp Hsecs]].
     set (P := prim s T) in *. set (l := csl_lock_ms s r T) in *.
     assert (Hl : forall k M, In (k, M) l -> lamk s T k = Some M).
